@@ -2692,6 +2692,176 @@ theorem approved_resume_sees_complete_window (c : Cache) (seq : Nat) (pos w : In
   have h4 : ¬ e.pos < pos - w := by omega
   simp [vis, inWindow, hes, h3, h4]
 
+/-! ### `ErrKvCacheFull` in location-free terms -/
+
+theorem slide_cells_length (c : Cache) (b : List Tok) : (slide c b).cells.length = c.cells.length := by
+  unfold slide
+  cases c.window with
+  | none => rfl
+  | some w =>
+    simp only
+    generalize batchSeqs b = seqs
+    induction seqs generalizing c with
+    | nil => rfl
+    | cons seq rest ih =>
+      simp only [List.foldl_cons]
+      cases lowest b seq with
+      | none => exact ih c
+      | some low =>
+        rw [ih (slideSeq c w seq low)]
+        unfold slideSeq; cases c.ranges seq <;> simp [length_mapFrom]
+
+/-- **`ErrKvCacheFull` in location-free terms**: a non-empty batch is rejected only if the entries the cache
+    holds (after the window eviction of the pass) plus the batch exceed the number of cells — no matter how the
+    entries are spread over the cells. -/
+theorem full_only_over_capacity (c : Cache) (b : List Tok) (h : Inv c) (hfix : c.v.fixDefrag = true)
+    (hb : b ≠ []) (hfull : (startForward c b).2 = .full) :
+    c.cells.length < (evictedSpec c b).length + b.length := by
+  have h1 : Inv (slide { c with curBatch := b, except := [] } b) := slide_inv _ b ⟨h.len, h.cover, h.rmax, h.pad, h.size⟩
+  have hfree := full_only_without_room c b h hfix hb hfull
+  have hsl : abs (slide { c with curBatch := b, except := [] } b) = evictedSpec c b :=
+    slide_abs { c with curBatch := b, except := [] } b ⟨h.len, h.cover, h.rmax, h.pad, h.size⟩
+  have hlen := length_abs_zip (slide { c with curBatch := b, except := [] } b).cells
+    (slide { c with curBatch := b, except := [] } b).rows h1.len
+  have hcl : (slide { c with curBatch := b, except := [] } b).cells.length = c.cells.length :=
+    slide_cells_length { c with curBatch := b, except := [] } b
+  rw [← hsl]
+  unfold abs
+  omega
+
+/-! ### positions stay below `MaxInt32` along histories that keep the contract -/
+
+def PosBoundS (s : Spec) : Prop := ∀ e ∈ s, e.pos < maxInt32
+
+/-- the cell-level bound follows from the bound on the abstract state -/
+theorem posBound_of_abs (c : Cache) (hlen : c.cells.length = c.rows.length) (h : PosBoundS (abs c)) :
+    PosBound c.cells := by
+  intro x hx s hs
+  obtain ⟨j, hj, rfl⟩ := List.getElem_of_mem hx
+  have hjr : j < c.rows.length := by omega
+  have hmem : (c.cells[j], c.rows[j]) ∈ c.cells.zip c.rows := by
+    rw [List.mem_iff_getElem]
+    exact ⟨j, by simp [List.length_zip]; omega, by simp⟩
+  have hne : c.cells[j].seqs ≠ [] := by intro h0; rw [h0] at hs; simp at hs
+  have : (⟨c.cells[j].seqs, c.cells[j].pos, c.rows[j].id, c.rows[j].shift⟩ : Entry) ∈ abs c := by
+    unfold abs
+    exact List.mem_filterMap.mpr ⟨_, hmem, by simp [entryOf, hne]⟩
+  exact h _ this
+
+theorem posBoundS_filterMap (f : Entry → Option Entry) (hf : ∀ x y, f x = some y → y.pos ≤ x.pos) (s : Spec)
+    (h : PosBoundS s) : PosBoundS (s.filterMap f) := by
+  intro y hy
+  obtain ⟨x, hx, hxy⟩ := List.mem_filterMap.mp hy
+  have := hf x y hxy
+  have := h x hx
+  omega
+
+/-- positions of the batch are below `MaxInt32`; a removal does not shift upwards -/
+def BoundedOp : HOp → Prop
+  | .fwd b _ => ∀ t ∈ b, t.pos < maxInt32
+  | .rm _ b e => b ≤ e
+  | _ => True
+
+theorem posBoundS_specStepT (W : Option Int) (s : Spec) (op : HOp) (acc : Bool) (h : PosBoundS s)
+    (hb : BoundedOp op) : PosBoundS (specStepT W s op acc) := by
+  have hev : ∀ (s : Spec) seq thr, PosBoundS s → PosBoundS (evict s seq thr) := by
+    intro s seq thr hs
+    apply posBoundS_filterMap _ _ s hs
+    intro x y hxy
+    unfold evictEntry at hxy
+    split at hxy
+    · simp only at hxy
+      split at hxy
+      · cases hxy
+      · cases hxy; exact Int.le_refl _
+    · cases hxy; exact Int.le_refl _
+  cases op with
+  | fwd b ids =>
+    have h1 : PosBoundS (match W with | none => s | some w => specSlide s w b) := by
+      cases W with
+      | none => exact h
+      | some w =>
+        simp only
+        unfold specSlide
+        generalize batchSeqs b = seqs
+        induction seqs generalizing s with
+        | nil => exact h
+        | cons seq rest ih =>
+          simp only [List.foldl_cons]
+          cases lowest b seq with
+          | none => exact ih s h
+          | some low => exact ih _ (hev s seq _ h)
+    simp only [specStepT]
+    split
+    · intro e he
+      simp only [KV.store, List.mem_append, List.mem_map] at he
+      rcases he with he | ⟨t, ht, rfl⟩
+      · exact h1 e he
+      · exact hb t.1 (List.of_mem_zip ht).1
+    · exact h1
+  | cp src dst len =>
+    apply posBoundS_filterMap _ _ s h
+    intro x y hxy
+    unfold cpEntry at hxy
+    simp only at hxy
+    split at hxy
+    · cases hxy
+    · cases hxy; exact Int.le_refl _
+  | rm seq b e =>
+    have hbe : b ≤ e := hb
+    simp only [specStepT]
+    split
+    · cases hr : KV.remove s seq b e with
+      | none => exact h
+      | some s' =>
+        simp only [Option.getD_some]
+        unfold KV.remove at hr
+        split at hr
+        · cases hr
+        · cases hr
+          apply posBoundS_filterMap _ _ s h
+          intro x y hxy
+          unfold rmEntry at hxy
+          split at hxy
+          · split at hxy
+            · simp only at hxy
+              split at hxy
+              · cases hxy
+              · cases hxy; exact Int.le_refl _
+            · split at hxy
+              · cases hxy
+                simp only [rmOffset]
+                split <;> omega
+              · cases hxy; exact Int.le_refl _
+          · cases hxy; exact Int.le_refl _
+    · exact h
+  | sc ex => exact h
+  | rsv b => exact h
+
+theorem posBoundS_runT (W : Option Int) (c : Cache) (s : Spec) (ops : List HOp) (h : PosBoundS s)
+    (hb : ∀ op ∈ ops, BoundedOp op) : PosBoundS (runT W c s ops) := by
+  induction ops generalizing c s with
+  | nil => exact h
+  | cons op rest ih =>
+    exact ih _ _ (posBoundS_specStepT W s op _ h (hb op (by simp))) (fun o ho => hb o (by simp [ho]))
+
+/-- **Positions stay below the `MaxInt32` sentinel** in every cell, along every history (repaired tree) whose
+    batches have positions below it and whose removals have `begin ≤ end` — the `PosBound` hypothesis of the
+    unwind / resume theorems is an invariant of such histories. -/
+theorem posBound_run (v : Variant) (hv : v.fixDefrag = true) (hat : v.atomicRemove = true) (w : Option Int)
+    (maxSeq capacity maxBatch cachePad batchPad : Nat) (hs : Bool) (ops : List HOp)
+    (hsz : (Causal.init v w maxSeq capacity maxBatch cachePad batchPad hs).cells.length ≤ maxInt)
+    (hwf : ∀ op ∈ ops, WellFormed op) (hb : ∀ op ∈ ops, BoundedOp op) :
+    PosBound (ops.foldl stepH (Causal.init v w maxSeq capacity maxBatch cachePad batchPad hs)).cells := by
+  have hinv := inv_run _ ops (inv_init v w maxSeq capacity maxBatch cachePad batchPad hs hsz)
+  have hperm := refines_run_total (Causal.init v w maxSeq capacity maxBatch cachePad batchPad hs) ops []
+    (by rw [abs_init]) (inv_init v w maxSeq capacity maxBatch cachePad batchPad hs hsz) hv hat
+    (rowsFresh_init v w maxSeq capacity maxBatch cachePad batchPad hs)
+    (freshEmpty_init v w maxSeq capacity maxBatch cachePad batchPad hs) hwf
+  apply posBound_of_abs _ hinv.len
+  intro e he
+  exact posBoundS_runT _ _ [] ops (fun e he => by simp at he) hb e (hperm.mem_iff.mp he)
+
 /-! ### no sequence holds a position twice, along histories that keep the contract -/
 
 def NodupPos (s : Spec) : Prop := ∀ q, (seqPositions s q).Nodup
@@ -3179,6 +3349,11 @@ example :
     (startForward (removeV c 0 4 maxInt32).1 [⟨0, 4⟩]).2 = .ok ∧
     ((exposedEntries (put (startForward (removeV c 0 4 maxInt32).1 [⟨0, 4⟩]).1 [9]) ⟨0, 4⟩).map key)
       = [(3, 4, 0), (4, 9, 0), (2, 3, 0)] := by decide
+
+/-- non-vacuity of `full_only_over_capacity`: the 5-cell F14 state holds 2 entries; a 4-token batch is rejected -/
+example :
+    (startForward (f14pre { fixDefrag := true }) [⟨0, 2⟩, ⟨0, 3⟩, ⟨0, 4⟩, ⟨0, 5⟩]).2 = .full ∧
+    (f14pre { fixDefrag := true }).cells.length = 5 ∧ (abs (f14pre { fixDefrag := true })).length = 2 := by decide
 
 /-- the cache's answers along a history -/
 def acceptTrace : Cache → List HOp → List Bool
